@@ -85,7 +85,7 @@ func (x *Exec) explore(entry *ssa.Function, initial []workItem) {
 		x.known = x.known[:0]
 		x.mapOrderNondet = false
 		x.events = x.events[:0]
-		x.files, x.fileSeq, x.waitResult, x.pipeOutput = nil, 0, nil, nil
+		x.files, x.fileSeq, x.waitResult, x.pipeOutput, x.pipeWriteFails = nil, 0, nil, nil, false
 		x.rangeSite, x.rangeCount = -1, 0
 		x.frames = x.frames[:0]
 		x.owned = true
@@ -128,6 +128,14 @@ func (x *Exec) explore(entry *ssa.Function, initial []workItem) {
 			x.call(entry, nil, nil)
 			x.pathCompleted = true
 		}()
+		// undo this path's stores into shared (frozen) objects
+		for i := len(x.undo) - 1; i >= 0; i-- {
+			x.undo[i].c.v = x.undo[i].old
+		}
+		if x.frozenWrites > 0 && !x.pathFlagged {
+			x.res.Inconclusive["suspect: a store into the shared parsed Program happened on a path whose assertions all held (not observable natively; a data race under concurrent executions)"]++
+		}
+		x.undo, x.frozenWrites = x.undo[:0], 0
 		if timedOut {
 			break
 		}
